@@ -167,6 +167,22 @@ def run_case(case):
             and [option_desc(o) for o in back.options_2] == [desc_semantic(d) for d in o2],
             "C19.offer-roundtrip", lambda: f"{a} opts={case['opts']} -> {back}")
 
+    # the same options split differently over the two runs (the earlier conversion results stay referenced, as they do in a
+    # running stack's tables): every conversion keeps exactly the runs it was given
+    allopts = list(o1) + list(o2)
+    keep = [back]
+    for k in range(len(allopts) + 1):
+        ent = hdr.SOMEIPSDEntry(sd_type=T.OfferService, service_id=a[0], instance_id=a[1], major_version=a[2], ttl=7, minver_or_counter=a[3],
+                                options_1=tuple(lib_option(x) for x in allopts[:k]), options_2=tuple(lib_option(x) for x in allopts[k:]))
+        sv = cfg.Service.from_offer_entry(ent)
+        keep.append(sv)
+        require([option_desc(o) for o in sv.options_1] == [desc_semantic(d) for d in allopts[:k]]
+                and [option_desc(o) for o in sv.options_2] == [desc_semantic(d) for d in allopts[k:]], "C19.offer-roundtrip",
+                lambda: f"{a}: offer entry with runs {allopts[:k]} / {allopts[k:]} converted to {sv}")
+        again = sv.create_offer_entry(ttl=7)
+        require(tuple(again.options_1) == tuple(ent.options_1) and tuple(again.options_2) == tuple(ent.options_2), "C19.offer-roundtrip",
+                lambda: f"{a}: entry -> description -> entry changed the option runs: {ent} -> {again}")
+
     # specialising an eventgroup filter (a's ids) to an offered service b
     evg = cfg.Eventgroup(service_id=a[0], instance_id=a[1], major_version=a[2], eventgroup_id=eg,
                          sockname=("10.0.0.9", 3000), protocol=hdr.L4Protocols.UDP)
